@@ -425,6 +425,7 @@ package proxy
 //@   ensures [only-a-ready-backend-gets-it-directly] !result ==> target != nil && !called(q) && !called(kick)
 //@   ensures [over-the-caps-disconnects] called(n) && (newBytes > 4194304 || newCount > 1024) ==> called(clr) && called(kick) && !called(q) && result
 //@   ensures [within-the-caps-is-queued] called(n) && newBytes <= 4194304 && newCount <= 1024 ==> called(q) && !called(kick) && result
+//@   ensures [queued-bytes-are-counted] called(q) ==> h.mu.pluginMessagesBytes == newBytes
 
 // Flush to the backend that became ready: inside ONE critical section the queue is drained from the front, every
 // drained message is buffered to that backend, and only then the backend is marked ready - so nothing can be queued
@@ -452,6 +453,7 @@ package proxy
 //@   ensures [over-the-caps-disconnects] called(n) && (newBytes > 4194304 || newCount > 1024) ==> called(clr) && called(kick) && !called(q) && !result
 //@   ensures [within-the-caps-is-queued] called(n) && newBytes <= 4194304 && newCount <= 1024 ==> called(q) && !called(kick) && result
 //@   ensures [latched-overflow-buffers-nothing] !called(n) ==> !called(q) && !result
+//@   ensures [queued-bytes-are-counted] called(q) ==> c.mu.loginPluginMessagesBytes == newBytes
 //@ func (*clientPlaySessionHandler).drainQueuedLoginPluginMessages
 //@   props C24
 //@   loop 1: invariant held(c.mu.RWMutex) == wlocked
